@@ -840,6 +840,10 @@ class RestAPI(object):
                 quota described in Stepfunction Quotas page.
                 https://docs.aws.amazon.com/step-functions/latest/dg/limits.html
                 """
+                if not isinstance(input, str):
+                    self.logger.error("RestAPI StartExecution: Invalid input, not a string")
+                    return aws_error("InvalidExecutionInput"), 400
+
                 if len(input) > MAX_DATA_LENGTH:
                     self.logger.error(
                         "RestAPI StartExecution: input size for execution '{}' exceeds "
@@ -975,6 +979,10 @@ class RestAPI(object):
                 quota described in Stepfunction Quotas page.
                 https://docs.aws.amazon.com/step-functions/latest/dg/limits.html
                 """
+                if not isinstance(input_as_string, str):
+                    self.logger.error("RestAPI StartSyncExecution: Invalid input, not a string")
+                    return aws_error("InvalidExecutionInput"), 400
+
                 if len(input_as_string) > MAX_DATA_LENGTH:
                     self.logger.error(
                         "RestAPI StartSyncExecution: input size for execution "
